@@ -13,6 +13,7 @@ from ..draw import Draw
 from ..gen import schemas
 from ..gen.docs import docgen
 from ..ref import plain as P
+from ..ref import rx
 from ..ref import splice as S
 
 ID = "C02"
@@ -72,10 +73,19 @@ def generate(R: Draw, tier: str) -> dict:
     T = P.tokens_of(doc["c"], rs.leaf_types)
     dd = S.depth_table(T)
     kind = R.weighted([("other", 6), ("same", 2), ("reinsert", 2)])
-    if focus is None and R.bool(0.12):
+    if focus is None and R.bool(0.16):
         # a closed inline slice dropped INSIDE a text node (both halves of the split text stay): what is valid depends
         # on the whole resulting child sequence, text merging included
         mids = [p for p in range(1, len(T)) if T[p - 1][0] == "char" and T[p][0] == "char"]
+        # prefer text inside parents whose inline content is sensitive to order or count (more than one match state)
+        from ..ref import resolve as RR
+
+        picky = []
+        for k_, s_, _par, _i, _d in RR.all_nodes(RR.N(doc, rs)):
+            if not k_.is_text and rs.inline_content.get(k_.t) and len(rx.states(rs.content[k_.t], limit=8)) > 1:
+                picky += [p for p in mids if s_ < p < s_ + k_.size]
+        if picky and R.bool(0.7):
+            mids = picky
         src2 = g.doc(R, "small")
         TS2 = P.tokens_of(src2["c"], rs.leaf_types)
         inl = [p for p in range(len(TS2)) if TS2[p][0] in ("char", "leaf") and rs.inline.get(TS2[p][1] if TS2[p][0] == "leaf" else "text")]
